@@ -255,6 +255,7 @@ def counters(ctx, rep):
                     elif bn in anchors: how = 'IDX-1'
                     elif bn in cmp_fns and u.op == 'load' and u.d['bits'] == 8: how = 'CUR-1 (NUL-cursor discipline, index form)'
                     elif bn in writers_: how = 'WRITER-1 / HELP-1 (copies exactly the source up to its NUL) + SIZE-1 (the sum of all sources fits the buffer)'
+                    elif g.name in decided: how = 'helper of a string function the semantic analysis (LAZY-1 / TOK-1 / CMP-8 / WRITER-1) decided for all inputs, every access of the helper included'
                     rep.check(how is not None, 'indexed %s at %s in %s is covered (%s)' % (u.op, u.loc, bn, how), u.loc, '%s: unclassified variable-index %s' % (bn, u.op),
                               sample={'site': u.loc, 'function': bn, 'covered_by': how} if ninv <= 4 else None, key='IDX-2|%s|%s' % (bn, u.op))
         rep.instances(ninv, 8, 'variable-index access sites')
@@ -369,13 +370,28 @@ def normaliser_buffers(ctx, rep):
                 elif t[0] == 'direct' and P.role_fn(t[1], 'lazy'): outarg = P.role_fn(t[1], 'lazy').args['out']
                 if outarg is None: continue
                 n += 1
-                base, off = addr_base(f, i.ops[outarg])
+                from .ir import strip_casts as sc0_
+                from .rules_cmp import vk as vk_
+                rb_, off = sc0_(f, i.ops[outarg])        # (follows a pointer parked in a local context struct to the value stored there)
+                base = vk_(rb_)
                 ok = off is not None and off >= 0 and base is not None
                 if ok and base[0] == 'i':
                     a = f.insts[base[1]]
                     ok = a.op == 'alloca' and off + S <= a.d['alloc_size'] and (off == 0 and a.d['alloc_size'] == S or a.d['alloc_kind'] == 'struct')
                 elif ok and base[0] == 'a':
                     ok = off == 0   # forwarded parameter: checked at the callers
+                if not ok:
+                    # a pointer parked in a context struct: decided by points-to - the value can only be the base address of whole polyseed_str locals (or a caller's buffer)
+                    from .ir import strip_casts as sc_
+                    r_, o_ = sc_(f, i.ops[outarg])
+                    if o_ == 0 and r_['k'] == 'i' and f.insts[r_['id']].op == 'load' and pts.is_base(f, r_):
+                        objs_ = pts.of(f, r_)
+                        def whole(o):
+                            if o[0] == 'alloca':
+                                a_ = P.defined[o[1]].insts[o[2]]
+                                return a_.d['alloc_size'] == S
+                            return o[0] == 'ext'
+                        ok = bool(objs_) and all(whole(o) for o in objs_)
                 rep.check(ok, 'normaliser output at %s is a whole polyseed_str (%d bytes) from offset 0' % (i.loc, S), i.loc,
                           '%s: normaliser writes into a buffer that is not a whole polyseed_str' % base_name(f.name), detail={'offset': off, 'base': str(base)},
                           sample={'site': i.loc, 'function': f.name}, key='BUF-1|%s|%s' % (base_name(f.name), t[1]))
